@@ -396,6 +396,7 @@ type LetDef struct {
 
 type LoopSpec struct {
 	Invariants []Clause
+	Steps      []Clause // per-iteration postconditions, checked at every back edge; prev(e) = e at the start of the iteration
 	Lets       []LetDef // evaluated at loop entry (ghost entry values)
 }
 
@@ -422,6 +423,7 @@ type Contract struct {
 	PanicsIf []Clause
 	Inline   bool // never use this contract at call sites (always inline)
 	Modular  bool // always use this contract at call sites
+	Precalls map[string][]Clause // assertions at direct call sites of the named callee ($Callee.<param> = the actual arguments)
 	Writes   []string // declared store write set: family expressions (proved as ensures [writes])
 	HasWrites bool
 }
@@ -622,6 +624,12 @@ func (cs *ContractSet) ParseContractText(file, text string) error {
 					return fail(err)
 				}
 				ls.Invariants = append(ls.Invariants, c)
+			case "step":
+				c, err := mkClause(f[2])
+				if err != nil {
+					return fail(err)
+				}
+				ls.Steps = append(ls.Steps, c)
 			case "let":
 				j := strings.Index(f[2], ":=")
 				if j < 0 {
@@ -652,6 +660,19 @@ func (cs *ContractSet) ParseContractText(file, text string) error {
 			} else if cur != nil {
 				cur.Uses = append(cur.Uses, u)
 			}
+		case "precall":
+			f := strings.SplitN(rest, " ", 2)
+			if len(f) < 2 || cur == nil {
+				return fail(fmt.Errorf("bad precall line"))
+			}
+			c, err := mkClause(f[1])
+			if err != nil {
+				return fail(err)
+			}
+			if cur.Precalls == nil {
+				cur.Precalls = map[string][]Clause{}
+			}
+			cur.Precalls[f[0]] = append(cur.Precalls[f[0]], c)
 		case "writes":
 			if cur == nil {
 				return fail(fmt.Errorf("writes outside func"))
